@@ -179,7 +179,7 @@ def resolve_once(scratch: str, case: dict[str, Any], sch: dict[str, Any]) -> tup
 
 
 def run_case(env: Env, case: dict[str, Any], want_trace: bool = False) -> dict[str, Any]:
-    scratch = tempfile.mkdtemp(prefix="dst-c17-", dir=SCRATCH_BASE)
+    scratch = tempfile.mkdtemp(prefix="dst-c17-" + os.environ.get("VERIF_RUN_TAG", "x") + "-", dir=SCRATCH_BASE)
     try:
         return _run_case(case, scratch, want_trace)
     finally:
